@@ -16,7 +16,7 @@ MANIFEST = dict(
     design='DESIGN.md §4 C17',
     technique='TLA+ machine of image-source application (Missing/Soft/Explicit fields, per-path FIFO) explored by TLC over all command lines of <=3 sources; every finalized run replayed into the real CLI and provenance read off the written file; TLA+ pixel codec checked on all 131 328 narrow-format values; exhaustive pixel / size / offset sweep through the real extract+compile loop',
     text='TLC explores ImageSources.tla (written from README "image sources") over every destination script of <=3 entries with duplicate paths, every sequence of <=3 sources (ANM files with duplicate entries, directories) and explicit/omitted header fields, checking LastWins, InOrder, HeaderRule and Outcome on every finalized run; each finalized run with its expected provenance is replayed into the real `truanm compile -i` (sources are real ANM files and PNG directories whose textures carry a tag unique to (source, entry)) and the provenance is read back from the THTX bytes and header fields of the output with an independent layout walker. Pixels.tla (bit replication up, truncation down, integer gray formula) is model-checked for Down(Up(p)) = p on all 65 536 RGB_565, all 65 536 ARGB_4444 and all 256 GRAY_8 values. The real tool is driven over textures containing every pixel value of each narrow format, random ARGB_8888 pixels and all sizes 1..64 x offsets 0..8: extract -> PNG -> compile with that directory must reproduce the THTX section byte for byte, and the original ANM as image source must copy it verbatim.',
-    note='Trusted: TLC, Json module, the stdlib-only PNG reader/writer and ANM layout walker/writer in checks/c17_binfmt.py (the writer is validated on every run: truth decompiles and re-emits the hand-written files byte-identically). PNG encode/decode fidelity is the image crate\'s. Differences between the real 8888 expansion and Pixels.Up/Down are reported as informational model_drift, not violations (the property demands losslessness only). Quick tier replays all successful runs of two reduced domains (3 sources over 2 paths; 2 sources over 3 paths) and a stride of the failing ones; thorough replays the full 3x3 domain.',
+    note='Trusted: TLC, Json module, the stdlib-only PNG reader/writer and ANM layout walker/writer in checks/c17_binfmt.py (the writer is validated on every run: truth decompiles and re-emits the hand-written files byte-identically). PNG encode/decode fidelity is the image crate\'s. Differences between the real 8888 expansion and Pixels.Up/Down are reported as informational model_drift, not violations (the property demands losslessness only). Quick tier replays all successful runs of two reduced domains (3 sources over 2 paths; 2 sources over 3 paths) and a stride of the failing ones; thorough replays the full 3x3 domain (failing runs by stride 6).',
 )
 
 GAME = "12"
@@ -26,8 +26,11 @@ FMT_NAME = {1: "ARGB_8888", 3: "RGB_565", 5: "ARGB_4444", 7: "GRAY_8"}
 BPP = {1: 4, 3: 2, 5: 2, 7: 1}
 
 
+TRUTH = os.environ.get("VERIF_TRUTH_CORE") or lib.TRUTH_CORE      # override only for mutation self-tests
+
+
 def truth(args, cwd=None):
-    p = subprocess.run([lib.TRUTH_CORE] + list(args), env=lib.clean_env(), cwd=cwd, stdout=subprocess.PIPE,
+    p = subprocess.run([TRUTH] + list(args), env=lib.clean_env(), cwd=cwd, stdout=subprocess.PIPE,
                        stderr=subprocess.PIPE, text=True, errors="replace")
     return p
 
@@ -219,7 +222,15 @@ def replay_cases(chk, cases, wd, batch_size, individual_stride):
     return ok_cases, fail_cases
 
 
-def run_provenance(chk, wd, replay_case=None):
+def gen_cfgs(quick):
+    return ["s3p2", "s2p3"] if quick else ["s3p3", "deep"]
+
+
+def run_gen(cfg, workers):
+    return lib.tlc("Gen_ImageSources", cfg="Gen_ImageSources_%s.cfg" % cfg, workers=workers, timeout=2400, name="gen_is_" + cfg)
+
+
+def run_provenance(chk, wd, replay_case=None, gen_results=None):
     quick = chk.tier == "quick"
     if replay_case is not None:
         c = replay_case
@@ -228,10 +239,7 @@ def run_provenance(chk, wd, replay_case=None):
         chk.add("traces_validated_against_impl")
         judge_case(chk, c, obs[0], "s")
         return
-    cfgs = ["s3p2", "s2p3"] if quick else ["s3p3", "deep"]
-    with ThreadPoolExecutor(max_workers=2) as ex:
-        results = list(ex.map(lambda c: lib.tlc("Gen_ImageSources", cfg="Gen_ImageSources_%s.cfg" % c, workers=4,
-                                                timeout=1500, name="gen_is_" + c), cfgs))
+    cfgs, results = gen_results
     seen = {}
     for cfg, r in zip(cfgs, results):
         if not r.ok:
@@ -244,14 +252,14 @@ def run_provenance(chk, wd, replay_case=None):
             seen.setdefault(case_key(c), c)
     cases = [seen[k] for k in sorted(seen)]
     chk.set("scenarios_distinct", len(cases))
-    if quick:
-        # all successful scenarios are replayed (batched); failing ones (an entry nobody supplies) by stride
-        fails = [c for c in cases if not c["ok"]]
-        keep_fail = set(case_key(c) for n, c in enumerate(fails) if n % 40 == 0)
-        cases = [c for c in cases if c["ok"] or case_key(c) in keep_fail]
+    # all successful scenarios are replayed (batched); failing ones (an entry nobody supplies) by stride
+    stride = 80 if quick else 6
+    fails = [c for c in cases if not c["ok"]]
+    keep_fail = set(case_key(c) for n, c in enumerate(fails) if n % stride == 0)
+    cases = [c for c in cases if c["ok"] or case_key(c) in keep_fail]
     import time
     t0 = time.time()
-    ok_cases, fail_cases = replay_cases(chk, cases, wd, 60, 97 if quick else 211)
+    ok_cases, fail_cases = replay_cases(chk, cases, wd, 120, 199 if quick else 211)
     chk.set("prov_replay_seconds", round(time.time() - t0, 1))
     chk.set("prov_expected_ok", len(ok_cases))
     chk.set("prov_expected_fail_replayed", len(fail_cases))
@@ -415,8 +423,8 @@ def run_sweep(chk, wd, only=None):
 
 
 # ===================================================================================== model vs real expansion
-def run_pixels_model(chk, wd, pix):
-    """MC_Pixels: in-model losslessness on every value; Up table / Down samples compared with the real tool (informational)."""
+def pixel_samples(chk, wd):
+    """Sample ARGB pixels whose Down value TLC computes (written before MC_Pixels starts)."""
     rng = random.Random(chk.seed * 104729 + 3)
     n = 48
     sample_px = {}
@@ -433,8 +441,19 @@ def run_pixels_model(chk, wd, pix):
         rows.append({"fmt": FMT_NAME[fmt], "px": px})
     sp = os.path.join(wd, "down_samples.ndjson")
     lib.write_ndjson(sp, rows)
+    return n, sample_px, sp
+
+
+def run_mc_pixels(wd, sp, workers):
+    return lib.tlc("MC_Pixels", env={"UP_OUT": os.path.join(wd, "up.ndjson"), "SAMPLES": sp, "DOWN_OUT": os.path.join(wd, "down.ndjson")},
+                   workers=workers, timeout=1500)
+
+
+def run_pixels_model(chk, wd, pix, samples, pixel_future):
+    """MC_Pixels: in-model losslessness on every value; Up table / Down samples compared with the real tool (informational)."""
+    n, sample_px, sp = samples
     up_out, down_out = os.path.join(wd, "up.ndjson"), os.path.join(wd, "down.ndjson")
-    r = lib.tlc("MC_Pixels", env={"UP_OUT": up_out, "SAMPLES": sp, "DOWN_OUT": down_out}, workers=6, timeout=900)
+    r = pixel_future.result()
     if not r.ok:
         raise lib.ToolError("MC_Pixels: Down(Up(p)) = p fails in the model\n" + r.out[-3000:])
     chk.tlc_stats(r)
@@ -501,17 +520,27 @@ def run(chk, replay=None):
             chk.set("states", 1); chk.set("transitions", 1)
         return
     import time
+    quick = chk.tier == "quick"
     t0 = time.time()
-    pix = run_sweep(chk, wd)
+    samples = pixel_samples(chk, wd)
+    cfgs = gen_cfgs(quick)
+    # the three TLC jobs run side by side (3 + 2 + 2 workers), then the real-tool phases use the 8 threads
+    with ThreadPoolExecutor(max_workers=3) as ex:
+        pixel_future = ex.submit(run_mc_pixels, wd, samples[2], 3)
+        gen_futures = [ex.submit(run_gen, c, 2 if quick else 3) for c in cfgs]
+        gen_results = [f.result() for f in gen_futures]
+        pixel_future.result()
     t1 = time.time()
-    run_pixels_model(chk, wd, pix)
+    pix = run_sweep(chk, wd)
     t2 = time.time()
-    run_provenance(chk, wd)
-    chk.set("phase_seconds", {"sweep": round(t1 - t0, 1), "pixels_model": round(t2 - t1, 1), "provenance": round(time.time() - t2, 1)})
+    run_pixels_model(chk, wd, pix, samples, pixel_future)
+    t3 = time.time()
+    run_provenance(chk, wd, gen_results=(cfgs, gen_results))
+    chk.set("phase_seconds", {"tlc_jobs": round(t1 - t0, 1), "sweep": round(t2 - t1, 1), "pixel_compare": round(t3 - t2, 1), "provenance_replay": round(time.time() - t3, 1)})
     thorough = chk.tier != "quick"
-    chk.set("exhaustive", bool(thorough))
+    chk.set("exhaustive", False)      # the models are exhaustive (TLC); the replay of failing runs is strided in both tiers
     chk.set("rule", "in-model: every pixel value of RGB_565/ARGB_4444/GRAY_8 and every command line of the bounded source domain is a TLC state; "
-                    "replay: every finalized successful run (quick: reduced domains, failing runs by stride 40) is compiled by the real CLI; "
+                    "replay: every finalized successful run (quick: reduced domains, failing runs by stride 80) is compiled by the real CLI; "
                     "sweep: every narrow pixel value, random 8888 pixels, sizes 1..64 x offsets 0..8 (quick: diagonal + mixed sample) through real extract+compile")
     chk.assume("PNG encode/decode fidelity is the image crate's (not decided)")
     chk.assume("`hdr` of the model is observed through memory_priority; the other header fields are assumed to follow the same SoftOption path")
